@@ -276,6 +276,9 @@ def main(prog: Union[str, None] = None) -> None:
         except PermissionError:
             sys.stderr.write('Input Error. DataGraph file not readable.\n')
             sys.exit(2)
+        except OSError as e:
+            sys.stderr.write('Input Error. DataGraph file cannot be opened: {}\n'.format(e))
+            sys.exit(2)
         else:
             # NOTE: This cast is not necessary in Python >= 3.10.
             data_graph = cast(BufferedReader, data_file)
